@@ -534,6 +534,47 @@ func init() {
 					loadOneFile(c, rw[1], "a construct the rewrite broke")
 					loadOneFile(c, rw[0], "")
 				}})
+			// a faulty layout or component that valid pages use (pages sorting before and after it; the component used with
+			// slots), and faulty files whose names hold percent signs: loading returns an error that carries a line
+			useFaults := append(append([]string{}, illegalTable[:12]...), "{{ \"never closed", "{{-- never closed", "@if(x)never closed", "{{ {a: 1", "@each(v in", "{{ 1 + }}", "{{ ~ }}", "text {{ 1 # 2 }} more", "\n\n{{ 'x", "@component(\"x\", 5)")
+			secs = append(secs, core.Section{Name: "faulty-files-in-use", Exhaustive: true, N: len(useFaults) * 3,
+				Run: func(c *core.Ctx, i int) {
+					fault := useFaults[i/3]
+					var files map[string]string
+					switch i % 3 {
+					case 0:
+						files = map[string]string{"layouts/main.tw": "<@reserve(\"b\")>" + fault, "home.tw": "@use(\"~main\")@insert(\"b\", 1)", "zz.tw": "@use(\"layouts/main\")@insert(\"b\")x@end", "other.tw": "fine"}
+					case 1:
+						files = map[string]string{"components/card.tw": "<@slot|@slot(\"f\")>" + fault, "a.tw": "@component(\"~card\")@slot s@end@slot(\"f\")t@end@end", "zz.tw": "@component(\"components/card\")", "widgets/w.tw": "W"}
+					default:
+						files = map[string]string{"sale-50%off.tw": "ok so far\n" + fault, "q%sx/a%%b.tw": "fine", "100%d.tw": "also fine"}
+					}
+					os.RemoveAll("c08use")
+					if err := writeFiles("c08use", files); err != nil {
+						c.Inconclusive(err.Error())
+						return
+					}
+					defer os.RemoveAll("c08use")
+					textwire.VerifResetConfig()
+					var tpl *textwire.Template
+					var err error
+					c.Eval(1)
+					c.Input(map[string]any{"files": describeFiles(files)})
+					if c.Guard(func() { tpl, err = textwire.NewTemplate(&config.Config{TemplateDir: "c08use", TemplateExt: ".tw"}) }) {
+						return
+					}
+					c.Nontrivial(fmt.Sprint("in-use", i, fault))
+					switch {
+					case err == nil && tpl != nil:
+						c.Violation("accepted-file:in-use", fmt.Sprintf("a tree with the faulty file content %q loaded without an error", fault), map[string]any{"files": describeFiles(files)})
+					case err == nil:
+						c.Violation("load-contract", "NewTemplate returned neither a template nor an error", map[string]any{"files": describeFiles(files)})
+					default:
+						if line, _, ok := ErrLinePath(err); !ok || line < 1 {
+							c.Violation("load-error-without-line", "the load error carries no line number: "+err.Error(), map[string]any{"files": describeFiles(files)})
+						}
+					}
+				}})
 			// several goroutines lex and parse at once, every input with words never seen before in the process
 			secs = append(secs, core.Section{Name: "concurrent-parsing", N: 16,
 				Run: func(c *core.Ctx, i int) {
@@ -604,6 +645,9 @@ func loadOneFile(c *core.Ctx, src string, mustFail string) {
 	os.MkdirAll(filepath.Join(dir, ".git"), 0o755)
 	os.WriteFile(filepath.Join(dir, ".git", "HEAD"), []byte("ref: refs/heads/main\n"), 0o644)
 	os.WriteFile(filepath.Join(dir, "page.tw~"), []byte("{{ backup of an editor"), 0o644)
+	// siblings whose names hold the extension twice, or a percent sign: templates of their own, and no reason to miss a fault
+	os.WriteFile(filepath.Join(dir, "page.tw.tw"), []byte("a valid sibling"), 0o644)
+	os.WriteFile(filepath.Join(dir, "zz.tw.tw.tw"), []byte("another {{ 1 }}"), 0o644)
 	if err := os.WriteFile(filepath.Join(dir, "page.tw"), []byte(src), 0o644); err != nil {
 		c.Inconclusive("cannot write scratch file: " + err.Error())
 		return
@@ -631,6 +675,8 @@ func loadOneFile(c *core.Ctx, src string, mustFail string) {
 		c.Count("file_loads_rejected", 1)
 		if !strings.Contains(err.Error(), "Textwire ERROR") {
 			c.Violation("load-error-shape", "load error is not a Textwire error: "+err.Error(), map[string]any{"content": src})
+		} else if line, _, ok := ErrLinePath(err); !ok || line < 1 {
+			c.Violation("load-error-without-line", "the load error carries no line number: "+err.Error(), map[string]any{"content": src})
 		}
 		return
 	}
